@@ -594,7 +594,10 @@ def run_impl(case):
             out['insts'].append(rec)
 
         face = rig.face
-        for (ii, oid) in case['steps']:
+        world = dict(case['world'])
+        for k_step, (ii, oid) in enumerate(case['steps']):
+            if case.get('appear') and case['appear'][0] == k_step:
+                world[case['appear'][1]] = case['appear'][2]      # a certificate becomes retrievable from now on
             v = validators[ii]
             if v is None:
                 out['steps'].append({'verdict': 'X', 'fetched': []})
@@ -623,12 +626,12 @@ def run_impl(case):
                     uri = _uri(iname)           # injective: the producer serves wire names, not their URI print
                     if not exhausted:       # the Interest as the simulated producer receives it
                         fetched.append([uri, int(bool(ipar.can_be_prefix)), int(bool(ipar.must_be_fresh)), ipar.lifetime])
-                    wo = case['world'].get(uri)
+                    wo = world.get(uri)
                     if wo is None and ipar.can_be_prefix:
                         # as a forwarder does: a CanBePrefix Interest is also satisfied by Data whose name extends it
-                        for n2 in sorted(case['world']):
-                            if n2.startswith(uri + '/') and case['world'][n2][0] == 'D':
-                                wo = case['world'][n2]
+                        for n2 in sorted(world):
+                            if n2.startswith(uri + '/') and world[n2][0] == 'D':
+                                wo = world[n2]
                                 break
                     if not wo or wo[0] == 'T':
                         continue
@@ -691,6 +694,8 @@ def model_line(case, impl):
     `Ndn.Lvs.check`, the anchor's matched rules, `root_of_trust`, `validate_user_fns` and the construction itself."""
     if LV.is_lvs(case):
         return LV.model_line(case, impl)
+    if case.get('appear'):
+        return None        # the world changes between two validations: the composed model has a static world; oracle only
     if any(i.get('storage') not in (None, 'mem') for i in case['insts']):
         return None        # EmptyKeyStorage / one storage shared by several instances: the fetch log differs; oracle only
     oids, names, kids = _ids(case, impl)
@@ -782,7 +787,10 @@ def oracle(case, impl):
             continue
         if s['verdict'] == 'HANG':
             return f'step {k}: validation neither finished nor waited for a certificate'
-        exp, why = spec_chain(case, case['insts'][ii], oid)
+        at = case
+        if case.get('appear') and k >= case['appear'][0]:
+            at = dict(case, world=dict(case['world'], **{case['appear'][1]: case['appear'][2]}))
+        exp, why = spec_chain(at, case['insts'][ii], oid)
         got = s['verdict'] == 'A'
         if got and not exp:
             others = sorted(set(j for j, _ in case['steps'][:k] if j != ii))
@@ -1221,6 +1229,46 @@ def cases(rng, tier):
             c = json.loads(json.dumps(base))
             c['steps'] = [list(s) for s in perm]
             yield c
+    # a certificate that could not be retrieved (timeout / Nack) when a packet was first validated becomes retrievable:
+    # the same instance, asked again, must accept ("every certificate on the way can be retrieved" is judged when the
+    # validator is asked, and the verdict does not depend on what was validated before), and so must a fresh instance
+    made, tries = 0, 0
+    want = 40 if tier == 'quick' else 600
+    while made < want and tries < want * 30:
+        tries += 1
+        base = _gen(rng)
+        if LV.is_lvs(base) or any(i.get('storage') not in (None, 'mem') for i in base['insts']):
+            continue
+        cands = []
+        for (ii, oid) in base['steps']:
+            ok, _ = spec_chain(base, base['insts'][ii], oid)
+            if ok is not True:
+                continue
+            # the certificates on the chain that come from the world
+            o, chain = base['objs'][oid], []
+            aname = fullname(base['objs'][base['insts'][ii]['anchor']])
+            while True:
+                kn = kl_name(base, o)
+                if kn is None or kn == aname:
+                    break
+                w = base['world'].get(kn)
+                if not w or w[0] != 'D' or w[1] in [c[1] for c in chain]:
+                    break
+                chain.append((kn, w[1]))
+                o = base['objs'][w[1]]
+            for kn, coid in chain:
+                cands.append((ii, oid, kn, coid))
+        if not cands:
+            continue
+        ii, oid, kn, coid = rng.choice(cands)
+        c = json.loads(json.dumps(base))
+        c['world'][kn] = [rng.choice(['T', 'N'])]
+        c['insts'].append(json.loads(json.dumps(c['insts'][ii])))
+        j = len(c['insts']) - 1
+        c['steps'] = [[ii, oid], [ii, oid], [j, oid]] if rng.random() < 0.7 else [[ii, oid], [j, oid], [ii, oid], [ii, oid]]
+        c['appear'] = [1, kn, ['D', coid]]
+        made += 1
+        yield c
     yield from LV.cases(rng, tier)      # generated LVS schemas: construction check and anchor-signed packets (c14_lvs.py)
 
 
@@ -1228,6 +1276,8 @@ def shrink(case):
     if LV.is_lvs(case):
         yield from LV.shrink(case)
         return
+    if case.get('appear'):
+        return          # step indices are part of the case
     steps = case['steps']
     for i in range(len(steps)):
         c = json.loads(json.dumps(case))
